@@ -30,7 +30,7 @@ k("ts_lemma_terminal_is_constant", *TS, ["C02", "C07"], "lemma", function="TimeS
   clause="contract => once terminal, later times are terminal with the same value")
 for mode in ("none", "times", "infinite"):
     k("ts_lemma_duration_agrees_%s" % mode, *TS, ["C03", "C07"], "lemma", function="TimeScale::{get_position,get_duration} (contracts)",
-      clause="contracts => not terminal before the reported total duration (delay + span exact); never terminal under infinite repeat", solver="cvc5")
+      clause="contracts => for EVERY configuration (no exactness side condition): not terminal before the reported total duration; from it on (t >= total, what is_ended tests) every allowed position is the terminal one (Ended, or the held end of the last cycle at t == total): 100%, or 0% when reversing; never terminal under infinite repeat", solver="cvc5", timeout=1500)
 k("ts_lemma_reverse_mirror", *TS, ["C03"], "lemma", function="TimeScale::get_position (contract)",
   clause="contract => falling half mirrors rising half (1-r exact)")
 k("ts_lemma_endpoint_arithmetic", *TS, ["C02", "C03"], "lemma", clause="d/d == 1, 0/d == 0, doubled/mirrored forms exact", solver="cvc5")
